@@ -1,5 +1,6 @@
 import LassoProofs.Lemmas.SerDoc
 import LassoProofs.C15
+import LassoModel.Extracted
 /-
   C14 — serialisation round-trips and yields a working interner.
 
@@ -118,5 +119,28 @@ example : (match deThreaded 255 [([97], 1), ([98], 2), ([99], 3)] with
       | (t', .ok k) => decide (k = 3) && (t'.str C15.cEnv 2 == some [99])
       | _ => false)
     | _ => false) = true := by decide
+
+/-! ### Tie to the source: the deserialisers as effect sequences
+
+`LassoModel/Serde.lean` mirrors the four `Deserialize` impls statement by statement.  The extractor
+regenerates, in evaluation order, what each of them reads, how it pre-sizes its containers (exactly the number
+of entries: the tables never grow while a document is read), that the arena is unlimited, and inside the
+loop: store (`expect`), hash, probe, the rejection of a repeated string, the key check *applied to the position
+of the entry* and its rejection, the push and the table insert; for the resolver the check of the last
+position up front; for the concurrent interner the running maximum of the keys, the two map inserts and the
+final validation (unique strings, dense keys) with its rejection.  These are the sequences the model's
+`deListLoop`, `deResolver` and `deThreadedLoop`/`deThreaded` follow. -/
+theorem deserialisers_follow_model :
+    Extracted.deRodeoEffects =
+      [.readList, .presizeExact, .presizeExact, .arenaUnlimited, .loopBegin, .store, .expectStored, .hashOne, .probe,
+       .reject, .keyCheck .loopIndex, .reject, .stringsPush, .tableInsert, .loopEnd] ∧
+    Extracted.deReaderEffects = Extracted.deRodeoEffects ∧
+    Extracted.deResolverEffects =
+      [.readList, .keyCheck .lenMinusOne, .reject, .presizeExact, .arenaUnlimited, .loopBegin, .store, .expectStored,
+       .stringsPush, .loopEnd] ∧
+    Extracted.deThreadedEffects =
+      [.readMap, .presizeExact, .presizeExact, .arenaUnlimited, .loopBegin, .counterMax, .store, .expectStored,
+       .mapInsert, .stringsInsert, .loopEnd, .finalCheck, .reject] := by
+  decide
 
 end Lasso.C14
